@@ -28,8 +28,9 @@ ASSUMPTIONS = ["BlockValue.size_exponent <= 7 for block values in the handler st
 
 
 def check(env, rep, tier):
-    include(rep, env, tier, "c12", ("C12.2",), "C08.11",
-            "'cached per (endpoint, method, path)': the cache key carries the path segment by segment, the method and the endpoint unchanged")
+    include(rep, env, tier, "c12", ("C12.1", "C12.2"), "C08.11",
+            "'cached per (endpoint, method, path)': the cache key carries the path segment by segment, the method and the endpoint unchanged, "
+            "and the handler keeps no state outside that keyed map (no slot shared between overlapping exchanges)")
     include(rep, env, tier, "c10", ("C10.5",), "C08.9", "'every body length': the reply is measured without its payload before it is fragmented (a whole-message size check would refuse large bodies)")
     include(rep, env, tier, "c13", ("C13.1",), "C08.10", "'block numbers agree with byte offsets': the Block2 value put on a served block reaches the wire (and the client's request value is read) with NUM, M and SZX at their RFC 7959 bit positions")
     include(rep, env, tier, "c20", ("C20.2",), "C08.8", "'later blocks are served from the cache': the per-key entry is only reached through entry()/or_insert() - it is never removed, replaced or iterated by the handler")
